@@ -45,13 +45,16 @@ def main(tier):
         for f in info["failures"]:
             V.proof_fail(f)
     q = tier == "quick"
-    scenarios = ["scenario1_small", "three_nets"] if q else ["scenario1_small", "scenario1", "three_nets"]
-    hashseeds = [0, 1, 2] if q else [0, 1, 2, 3, 5, 8, 13, 21]
+    scenarios = ["scenario1_small", "scenario1", "three_nets"]
+    hashseeds = [0, 1, 2, 3, 4, 5] if q else [0, 1, 2, 3, 4, 5, 8, 13, 21, 34, 55, 89]
     seeds = [42 + seed()] if q else [42 + seed(), 7, 1234]
     specs = []
     for sc, dyn, s in itertools.product(scenarios, [False, True], seeds):
-        specs.append({"scenario": sc, "dynamic": dyn, "defender": True, "players": 2 if not dyn else 1, "seed": s,
+        specs.append({"scenario": sc, "dynamic": dyn, "defender": True, "players": 4 if not dyn else 1, "seed": s,
                       "episodes": 4 if q else 6, "steps": 20 if q else 30})
+    # the configuration hash of EVERY shipped scenario (one short session each)
+    for sc in ["scenario1_tiny"] + [x for x in ["scenario1_small", "scenario1", "three_nets"] if x not in scenarios]:
+        specs.append({"scenario": sc, "dynamic": False, "defender": False, "players": 1, "seed": 42, "episodes": 1, "steps": 2, "generic_start": True})
     jobs = [(spec, hs) for spec in specs for hs in hashseeds]
     with ThreadPoolExecutor(max_workers=min(16, len(jobs))) as ex:
         results = list(ex.map(lambda j: run_probe(*j), jobs))
